@@ -47,7 +47,7 @@ def rows_of(out):
 def panel_for(entry, n, seed):
     ncol = 2 if entry["name"] == "column_ensemble" else 1
     noisy = entry["kind"] in ("classifier", "regressor")
-    X, y = E.make_panel(n, ncol, 12, seed, noise=2.0 if noisy else 0.5)
+    X, y = E.make_panel(n, ncol, entry.get("tp", 12), seed, noise=2.0 if noisy else 0.5)
     return X, y
 
 
@@ -60,7 +60,9 @@ class Fitted:
 
     def get(self, fitc):
         if fitc not in self.cache:
-            Xtr, ytr = E.make_panel(12, 2 if self.entry["name"] == "column_ensemble" else 1, 12, self.seed + 500,
+            # 9 training instances: deliberately different from the number of time points
+            Xtr, ytr = E.make_panel(9, 2 if self.entry["name"] == "column_ensemble" else 1, self.entry.get("tp", 12),
+                                    self.seed + 500,
                                     noise=2.0 if self.entry["kind"] in ("classifier", "regressor") else 0.5)
             est = self.entry["factory"]()
             yy = np.asarray(ytr, dtype=float) if self.entry["kind"] == "regressor" else ytr
